@@ -1159,3 +1159,131 @@ Proof.
   split; [left; apply ex_wf; [discriminate|reflexivity|reflexivity]|]. split; [vm_compute; reflexivity|].
   split; [split; reflexivity|]. split; [left; right; left; reflexivity|]. split; vm_compute; reflexivity.
 Qed.
+
+(* ------------------------------------------------------------ several view instances in one process *)
+Lemma nth_set_nth_other {A} (l : list A) : forall i k x d, k <> i -> nth k (set_nth i x l) d = nth k l d.
+Proof.
+  induction l as [|y r IH]; intros i k x d Hne.
+  - destruct i; reflexivity.
+  - destruct i as [|i]; destruct k as [|k]; cbn [set_nth nth]; try reflexivity; [congruence|].
+    apply IH. congruence.
+Qed.
+
+Lemma nth_set_nth_same {A} (l : list A) : forall i x d,
+  nth i (set_nth i x l) d = x \/ nth i (set_nth i x l) d = nth i l d.
+Proof.
+  induction l as [|y r IH]; intros i x d.
+  - right. destruct i; reflexivity.
+  - destruct i as [|i]; cbn [set_nth nth]; [left; reflexivity|apply IH].
+Qed.
+
+(* every instance's filemap holds exactly what would be recomputed for ITS configuration *)
+Definition fms_exact (cs : list config) (fs : fsys) (fms : list filemap) : Prop :=
+  forall i, fm_exact (nth i cs dflt_cfg) fs (nth i fms []).
+
+Lemma nth_const {A B} (l : list A) (d : B) : forall i, nth i (map (fun _ => d) l) d = d.
+Proof. induction l as [|a l IH]; intros i; destruct i; cbn [map nth]; try reflexivity. apply IH. Qed.
+
+Lemma fm_exact_eq_nil c fs fm : fm = [] -> fm_exact c fs fm.
+Proof. intros ->. apply fm_exact_nil. Qed.
+
+Lemma fms_exact_fresh cs fs : fms_exact cs fs (map (fun _ => []) cs).
+Proof. intros i. apply fm_exact_eq_nil. apply nth_const. Qed.
+
+Lemma fms_exact_update cs fs fms i fm' :
+  fms_exact cs fs fms -> fm_exact (nth i cs dflt_cfg) fs fm' -> fms_exact cs fs (set_nth i fm' fms).
+Proof.
+  intros H Hfm k. destruct (Nat.eq_dec k i) as [->|Hne].
+  - destruct (nth_set_nth_same fms i fm' []) as [E|E]; rewrite E; [assumption|apply H].
+  - rewrite nth_set_nth_other by assumption. apply H.
+Qed.
+
+(* each answer of interleaved request sequences over any number of view instances equals the
+   answer a fresh, lone instance with that configuration gives to that request: no instance is
+   influenced by what any other instance (or itself, earlier) has served *)
+Theorem multi_transparent cs fs rqs : forall fms,
+  fms_exact cs fs fms ->
+  map fst (run_multi cs fs fms rqs) =
+  map (fun ir => fst (fst (run_request (nth (fst ir) cs dflt_cfg) fs [] (snd ir)))) rqs.
+Proof.
+  induction rqs as [|[i rq] rqs IH]; intros fms Hfms; [reflexivity|].
+  cbn [run_multi map fst snd]. change filemap_per_instance with true. cbv iota.
+  destruct (run_request_indep (nth i cs dflt_cfg) fs (nth i fms []) rq (Hfms i)) as [E Hfm'].
+  destruct (run_request (nth i cs dflt_cfg) fs (nth i fms []) rq) as [[r fm'] log]. cbn [fst snd map] in *.
+  rewrite E. f_equal. apply IH. apply fms_exact_update; assumption.
+Qed.
+
+Corollary multi_transparent_fresh cs fs rqs :
+  map fst (run_multi_model cs fs rqs) =
+  map (fun ir => fst (fst (run_request (nth (fst ir) cs dflt_cfg) fs [] (snd ir)))) rqs.
+Proof. apply multi_transparent. apply fms_exact_fresh. Qed.
+
+(* one instance: the multi-instance runner is the single-instance one *)
+Lemma run_multi_single c fs rqs : forall fm,
+  run_multi [c] fs [fm] (map (pair O) rqs) = run_requests c fs fm rqs.
+Proof.
+  induction rqs as [|rq rqs IH]; intros fm; [reflexivity|].
+  cbn [map run_multi run_requests nth]. change filemap_per_instance with true. cbv iota. cbn [nth].
+  destruct (run_request c fs fm rq) as [[r fm'] log]. cbn [set_nth]. f_equal. apply IH.
+Qed.
+
+Lemma run_multi_cons cs fs fms i rq rqs r fm' log :
+  run_request (nth i cs dflt_cfg) fs (nth i fms []) rq = ((r, fm'), log) ->
+  run_multi cs fs fms ((i, rq) :: rqs) = (r, log) :: run_multi cs fs (set_nth i fm' fms) rqs.
+Proof.
+  intros E. cbn [run_multi]. change filemap_per_instance with true. cbv iota.
+  change (let '(res, fm'0, log0) := run_request (nth i cs dflt_cfg) fs (nth i fms []) rq in
+          (res, log0) :: run_multi cs fs (set_nth i fm'0 fms) rqs) with
+         (match run_request (nth i cs dflt_cfg) fs (nth i fms []) rq with
+          | ((res, fm'0), log0) => (res, log0) :: run_multi cs fs (set_nth i fm'0 fms) rqs end).
+  rewrite E. reflexivity.
+Qed.
+
+(* conformance and containment for every instance, each against its own configuration *)
+Theorem multi_conform cs fs rqs :
+  (forall i, wf (nth i cs dflt_cfg) /\ root_is_dir (nth i cs dflt_cfg) fs /\ host_ok (nth i cs dflt_cfg)) ->
+  Forall (fun ir => decodable (nth (fst ir) cs dflt_cfg) (snd ir)) rqs ->
+  Forall (fun x => conforms (fst (snd x)) (spec_response (nth (fst (fst x)) cs dflt_cfg) (snd (fst x)) fs) = true)
+         (combine rqs (run_multi_model cs fs rqs)).
+Proof.
+  intros Hc. unfold run_multi_model. generalize (fms_exact_fresh cs fs). generalize (map (fun _ : config => @nil (text * list cand)) cs).
+  induction rqs as [|[i rq] rqs IH]; intros fms Hfms Hd; [constructor|].
+  inversion Hd as [|? ? Hd1 Hdr]; subst. cbn [fst snd] in Hd1.
+  destruct (run_request (nth i cs dflt_cfg) fs (nth i fms []) rq) as [[r fm'] log] eqn:E.
+  destruct (Hc i) as (Hwf & Hroot & Hhost).
+  destruct (request_conform _ fs _ rq r fm' log Hwf Hroot Hhost (Hfms i) Hd1 E) as [Hfm' Hconf].
+  rewrite (run_multi_cons cs fs fms i rq rqs r fm' log E). cbn [combine]. constructor; [exact Hconf|]. apply IH; [apply fms_exact_update; assumption|assumption].
+Qed.
+
+Definition fms_ok (cs : list config) (fms : list filemap) : Prop :=
+  forall i, fm_ok (nth i cs dflt_cfg) (nth i fms []).
+
+Lemma fm_ok_eq_nil c fm : fm = [] -> fm_ok c fm.
+Proof. intros ->. apply fm_ok_nil. Qed.
+
+Lemma fms_ok_update cs fms i fm' :
+  fms_ok cs fms -> fm_ok (nth i cs dflt_cfg) fm' -> fms_ok cs (set_nth i fm' fms).
+Proof.
+  intros H Hfm k. destruct (Nat.eq_dec k i) as [->|Hne].
+  - destruct (nth_set_nth_same fms i fm' []) as [E|E]; rewrite E; [assumption|apply H].
+  - rewrite nth_set_nth_other by assumption. apply H.
+Qed.
+
+Theorem multi_containment cs fs rqs :
+  (forall i, wf (nth i cs dflt_cfg) /\ root_is_dir (nth i cs dflt_cfg) fs) ->
+  Forall (fun x => contained (nth (fst (fst x)) cs dflt_cfg) (snd (snd x)) = true)
+         (combine rqs (run_multi_model cs fs rqs)).
+Proof.
+  intros Hc. unfold run_multi_model.
+  assert (H0 : fms_ok cs (map (fun _ => []) cs)) by (intros i; apply fm_ok_eq_nil; apply nth_const).
+  revert H0. generalize (map (fun _ : config => @nil (text * list cand)) cs).
+  induction rqs as [|[i rq] rqs IH]; intros fms Hfms; [constructor|].
+  destruct (run_request (nth i cs dflt_cfg) fs (nth i fms []) rq) as [[r fm'] log] eqn:E.
+  destruct (Hc i) as (Hwf & Hroot).
+  destruct (run_request_contained_g _ fs _ rq r fm' log Hwf Hroot (Hfms i) E) as [Hl Hfm'].
+  rewrite (run_multi_cons cs fs fms i rq rqs r fm' log E). cbn [combine]. constructor; [exact Hl|].
+  apply IH. apply fms_ok_update; assumption.
+Qed.
+
+Lemma facts_ok2 : filemap_per_instance = true.
+Proof. reflexivity. Qed.
